@@ -153,6 +153,72 @@ def _prim_run(pat, tgt):
     return _m(pat, tgt)
 
 
+# ---- (1c) lists of identifiers, every position, non-NFKC spellings, sibling-valued single-leaf variants ---------------
+
+ID_NAMES = ['x', '\ufb01', 'yy', '\u210c', '\u00b51']       # 'fi' ligature -> 'fi', script H -> 'H', micro sign -> Greek mu
+
+
+def _id_src(kind, names):
+    if kind == 'global':
+        return 'def f():\n    global ' + ', '.join(names) + '\n'
+    if kind == 'nonlocal':
+        return 'def g():\n  ' + '; '.join(n + ' = 1' for n in names) + '\n  def f():\n    nonlocal ' + ', '.join(names) + '\n'
+    if kind == 'kwd_attrs':
+        return 'match s:\n    case C(' + ', '.join(f'{n}={i}' for i, n in enumerate(names)) + '): pass\n'
+    if kind == 'import':
+        return 'from m import ' + ', '.join(names) + '\n'
+    if kind == 'args':
+        return 'def f(' + ', '.join(names) + '): pass\n'
+    raise ValueError(kind)
+
+
+def identifier_list_cases():
+    """[(name, kind, target src, pattern src, expected)]: expected = the two sources parse to the same tree (ast.dump)"""
+    import unicodedata
+    out = []
+    for kind in ('global', 'nonlocal', 'kwd_attrs', 'import', 'args'):
+        for n in (1, 2, 3):
+            for i in range(len(ID_NAMES) - n + 1):
+                names = ID_NAMES[i:i + n]
+                src = _id_src(kind, names)
+                variants = [list(names)]
+                for p in range(n):
+                    for repl in set([names[0], names[-1], 'zz', unicodedata.normalize('NFKC', names[p])] + names):
+                        v = list(names)
+                        v[p] = repl
+                        if len(set(unicodedata.normalize('NFKC', q) for q in v)) == len(v) or kind in ('global', 'import'):
+                            variants.append(v)
+                    for q in range(p + 1, n):
+                        v = list(names)
+                        v[p], v[q] = v[q], v[p]
+                        variants.append(v)
+                seen = set()
+                for v in variants:
+                    if tuple(v) in seen:
+                        continue
+                    seen.add(tuple(v))
+                    try:
+                        psrc = _id_src(kind, v)
+                        same = ast.dump(ast.parse(src)) == ast.dump(ast.parse(psrc))
+                    except SyntaxError:
+                        continue
+                    out.append((f'{kind} {names} vs pattern from {v}', kind, src, psrc, same))
+    return out
+
+
+def _id_run(src, psrc):
+    """(FST target vs AST pattern, pure AST target vs AST pattern, search of the own statement finds it)"""
+    from fst import FST
+    from fst.match import M
+    try:
+        f = FST(src, 'exec')
+        a = f.match(ast.parse(psrc)) is not None
+        b = M(ast.parse(psrc)).match(ast.parse(src)) is not None
+        return a, b
+    except Exception as e:      # noqa: BLE001
+        return 'raised ' + type(e).__name__, None
+
+
 # ---- (2) ------------------------------------------------------------------------------------------------------------
 
 def constructor_cases():
@@ -311,6 +377,16 @@ def sweep(ctx):
             fail(f'C17|structural|equal-not-identical-leaf-{what}|{cls}',
                  f'{name}: a pattern with equal but not identical leaf objects gives {got}, expected {exp}',
                  {'kind': 'views', 'family': 'prim', 'index': i, 'name': name})
+    for i, (name, kind, src, psrc, exp) in enumerate(identifier_list_cases()):
+        ctx.count(('idlist', name))
+        got = _id_run(src, psrc)
+        if got != (exp, exp):
+            which = 'raised' if isinstance(got[0], str) else ('own-pattern-rejected' if exp and src == psrc else
+                                                              'wrong-reject' if exp else 'single-leaf-variant-accepted')
+            where = 'formatted' if got[0] != exp else 'pure-ast'
+            fail(f'C17|structural|identifier-list-{kind}|{which}',
+                 f'{name}: match on the {where} tree gives {got}, ast.dump says the trees are {"equal" if exp else "different"}',
+                 {'kind': 'views', 'family': 'idlist', 'index': i, 'name': name})
     for i, (name, thunk, ok) in enumerate(constructor_cases()):
         ctx.count(('ctor', name))
         try:
@@ -347,6 +423,9 @@ def replay(ctx, w):
     if fam == 'falsy':
         name, pat, tgt, exp = falsy_cases()[i]
         got = _m(pat, tgt)
+    elif fam == 'idlist':
+        name, kind, src, psrc, e0 = identifier_list_cases()[i]
+        got, exp = _id_run(src, psrc), (e0, e0)
     elif fam == 'prim':
         name, pat, tgt, exp = primitive_cases()[i]
         got = _prim_run(pat, tgt)
